@@ -307,7 +307,7 @@ impl<'a> Gen<'a> {
                     .collect()
             };
             let task_abort = self.cfg.task_abort && !legacy;
-            let w: [u32; 17] = [
+            let w: [u32; 18] = [
                 10,                                                    // 0 Req
                 if streams < 2 { 4 } else { 0 },                       // 1 Open
                 if streams > 0 { 7 } else { 0 },                       // 2 Next
@@ -325,6 +325,7 @@ impl<'a> Gen<'a> {
                 if spawn_ok && streams < 2 && !legacy_no_pipe { 3 } else { 0 }, // 14 SpawnPipe
                 if producer { 9 } else { 0 },                          // 15 Send
                 if joinable.is_empty() { 0 } else { 4 },               // 16 JoinMixed
+                1,                                                     // 17 Abandon
             ];
             let choice = self.rng.weighted(&w);
             // anything but an immediate abort ends the "just spawned" window
@@ -439,6 +440,7 @@ impl<'a> Gen<'a> {
                     self.counter += 1;
                     instrs.push(Instr::Hold { counter: c });
                 }
+                17 => instrs.push(Instr::Abandon { site: self.site() }),
                 14 => {
                     let s = self.script_inner(depth + 1, flags, true);
                     instrs.push(Instr::SpawnPipe { script: s });
